@@ -330,6 +330,11 @@ def check_rqa(ctx, obj, R, cls, sig_extra, replay):
     the line histograms account for the matrix the object holds (N consistent
     with the side of R)."""
     R = np.asarray(R)
+    if R.ndim != 2:
+        # (round 5) a construction that left no matrix behind: a failing input, not a crash
+        ctx.fail(dict(kind="matrix", cls=cls, issue="no-matrix", **sig_extra),
+                 f"{cls}: recurrence_matrix() is not a 2-D array ({R!r})", replay)
+        return
     side = R.shape[0]
     if side == 0:
         return
@@ -721,6 +726,12 @@ def run(ctx):
                      f"for {n} states (k <= n-1)", replay)
             continue
         R = np.asarray(obj.recurrence_matrix())
+        if R.ndim != 2:
+            ctx.case(("adaptive-obj", n, kA, ts.tobytes().hex(), metric), False)
+            ctx.fail(dict(kind="adaptive", cls=cls, issue="no-matrix"),
+                     f"{cls}(adaptive_neighborhood_size={kA}): recurrence_matrix() is not a 2-D "
+                     f"array ({R!r})", replay)
+            continue
         ctx.case(("adaptive-obj", n, kA, ts.tobytes().hex(), metric), nontrivial(R))
         neigh = (R.sum(axis=1) - np.diag(R))
         st = q_states(ts, None)
@@ -849,6 +860,12 @@ def run(ctx):
                      f"{type(ex).__name__}: {ex} for {n_st} states with tied distances", replay)
             continue
         R = np.asarray(obj.recurrence_matrix())
+        if R.ndim != 2:
+            ctx.case(("adaptive-ties", cls, metric, emb, kA, mv, ts.tobytes().hex()), False)
+            ctx.fail(dict(sig, issue="no-matrix"),
+                     f"{cls}(adaptive_neighborhood_size={kA}, missing_values={mv}): "
+                     f"recurrence_matrix() is not a 2-D array ({R!r})", replay)
+            continue
         ctx.case(("adaptive-ties", cls, metric, emb, kA, mv, ts.tobytes().hex()), nontrivial(R))
         D = q_dists(metric, st, st)
         for i in range(n_st):
